@@ -1,0 +1,32 @@
+//! Verification hooks (only compiled with `--cfg mahf_verif`).
+//!
+//! A [`StepObserver`] inserted into the [`State`] is called before and after every child of every
+//! [`Block`], with the child's type name and index.
+//!
+//! [`Block`]: crate::components::Block
+
+use better_any::{Tid, TidAble};
+
+use crate::{CustomState, Problem, State};
+
+/// Whether the observer is called before or after the child was executed.
+#[derive(Clone, Copy, Debug, PartialEq, Eq)]
+pub enum Phase {
+    Before,
+    After,
+}
+
+type ObserverFn<P> = Box<dyn FnMut(Phase, &'static str, usize, &State<P>) + Send>;
+
+/// Observer called around every child of every block.
+#[derive(Tid)]
+pub struct StepObserver<P: Problem + 'static>(pub ObserverFn<P>);
+
+impl<P: Problem> CustomState<'_> for StepObserver<P> {}
+
+/// Calls the [`StepObserver`] if one is present anywhere in the `state`.
+pub fn observe<P: Problem>(state: &State<P>, phase: Phase, name: &'static str, index: usize) {
+    if let Ok(mut observer) = state.try_borrow_mut::<StepObserver<P>>() {
+        (observer.0)(phase, name, index, state);
+    }
+}
